@@ -604,6 +604,8 @@ def run(ctx):
             % (st["behaviours"], st["events"], st["steps_compared"], st["tries"], st["hooks_compared"], st["messages_compared"],
                st["refused_attempts_observed"], st["mid_batch_failures"], st["failover_deliveries"], st["hangs"], st["skipped_slow"],
                st["desynchronised"], st["mismatch_classes"] or "none"))
+    if st["skipped_slow"]:
+        ctx.log("not judged: %s, e.g. %s" % (st.get("skip_reasons"), (st.get("skip_examples") or [""])[0][:300]))
     if st["skipped_slow"] > max(2, st["behaviours"] // 5):
         raise common.Infra("%d of %d behaviours could not be judged: the machine is too slow" % (st["skipped_slow"], st["behaviours"]))
     if st["hooks_compared"] == 0 or st["steps_compared"] == 0 or st["messages_compared"] == 0:
@@ -661,6 +663,7 @@ def rest(ctx, st, chosen, covered, res, intended, refuted, taken, sims, ngen):
         "behaviours_generated": ngen,
         "behaviours_replayed": st["behaviours"],
         "behaviours_not_judged_slow": st["skipped_slow"],
+        "behaviours_not_judged_reasons": st.get("skip_reasons") or {},
         "script_events_executed": st["events"],
         "attempts_compared_with_TLC": st["steps_compared"],
         "scripted_attempts_by_outcome": st["tries"],
